@@ -378,6 +378,8 @@ func init() {
 		c.ruleTrustedOnlyFromTrustedSource("R6")
 		c.ruleRevertRemovesRevertedHeights("R7")
 		c.ruleIndexBoundOnSameIndex("R8", "spynode.fetchSpentOutputs")
+		c.ruleNoContentFailureInSharedTxPath("R9", 2)
+		c.ruleWiring("R10", c.constructorsIn("handlers", "spynode"))
 	}
 }
 
